@@ -62,7 +62,11 @@ def make_result_factory(flavour):
     if flavour == "real":
         return log, lambda: recorders.make_real_recorder(testtools.TestResult, log)
     if flavour == "stream":
-        return log, lambda: testtools.ExtendedToStreamDecorator(recorders.StreamRecorder(log))
+        def stream_result():
+            r = testtools.ExtendedToStreamDecorator(recorders.StreamRecorder(log))
+            r.failfast = False      # what a runner does with its own setting (unittest.TextTestRunner: result.failfast = ...)
+            return r
+        return log, stream_result
     raise ValueError(flavour)
 
 
